@@ -1671,3 +1671,4 @@ fn c03_recv_response_foreign_id_ignored() {
 // `validate` and then explores the slot clone loops 5 deep: solver out of memory at 24 GB.  That
 // `recv_response` calls `validate` before anything else is therefore by reading; what `validate`
 // decides is c03_recv_decision_* / c02_identity_*.)
+// (also tried with concrete addresses so that the comparison folds: still out of memory at 24 GB.)
